@@ -82,10 +82,12 @@ def prepare_c(ctx, programs, levels=LEVELS):
             with native.SpillWatch() as sw:
                 try:
                     # the steps of api.cc, with the optimised module in hand (to name known defect classes in keys)
-                    m = api.c_to_ir(io.StringIO(src), "x86_64")
-                    api.optimize(m, level=lv)
-                    itags = native.ir_tags(m)
-                    obj = api.ir_to_object([m], "x86_64")
+                    def work(lv=lv):
+                        m = api.c_to_ir(io.StringIO(src), "x86_64")
+                        api.optimize(m, level=lv)
+                        return native.ir_tags(m), api.ir_to_object([m], "x86_64")
+
+                    itags, obj = native.limited(work, native.COMPILE_LIMIT_S, "x86_64 cc")
                     err = None
                 except Exception as e:  # code generation refused the program: C29's business
                     obj, err = None, "codegen:" + type(e).__name__
@@ -142,7 +144,8 @@ def ppci_link_path(wd, ready, results):
         if head.labels[0].startswith("ref:"):
             continue
         try:
-            drv = api.cc(io.StringIO(native.ppci_driver_text(head)), "x86_64", opt_level=0)
+            drv = native.limited(lambda: api.cc(io.StringIO(native.ppci_driver_text(head)), "x86_64", opt_level=0),
+                                 native.COMPILE_LIMIT_S, "x86_64 cc")
             derr = None
         except Exception as e:
             drv, derr = None, "error:driver-codegen:" + type(e).__name__
@@ -153,7 +156,7 @@ def ppci_link_path(wd, ready, results):
             data, err = None, derr
             if drv is not None and u.obj is not None:
                 try:
-                    data = native.ppci_link_exe([u.obj, drv])
+                    data = native.limited(lambda: native.ppci_link_exe([u.obj, drv]), native.COMPILE_LIMIT_S, "ppci link")
                 except Exception as e:
                     err = "error:ppci-link:" + type(e).__name__
             elif u.obj is None:
